@@ -116,6 +116,20 @@ func checkC04(w *World, r *Report) {
 						return true
 					})
 				}
+				// the cursor must be moved by scanning for the comment end, not by a fixed stride
+				// (the tokenizer emits no body token for an empty comment)
+				scans := false
+				for _, st := range cc.Body {
+					ast.Inspect(st, func(m ast.Node) bool {
+						if fs, ok := m.(*ast.ForStmt); ok && fs.Cond != nil && mentionsConst(w, fs.Cond, "TOKEN_COMMENT_END") {
+							scans = true
+						}
+						return true
+					})
+				}
+				if bad == "" && !scans {
+					bad = "the comment arm does not scan for TOKEN_COMMENT_END (fixed stride): an empty comment has no body token, so the token after it is swallowed"
+				}
 				if bad == "" {
 					r.ok("R04.2", fname, "comment arm builds nothing and parses nothing", w.pos(cc), "no append, no parser call between the comment delimiters", true)
 				} else {
@@ -334,8 +348,30 @@ func checkVerbatim(w *World, r *Report, tokenT types.Type, textKind types.Object
 			return true
 		})
 	}
-	if fd == nil {
-		cannotDecide("no parser function constructs a VerbatimNode")
+	// the handler registered for the verbatim tag
+	var handler *ast.FuncDecl
+	for _, d := range w.sortedDecls() {
+		ast.Inspect(d.Body, func(n ast.Node) bool {
+			kv, ok := n.(*ast.KeyValueExpr)
+			if !ok {
+				return true
+			}
+			if tv := w.Info.Types[kv.Key]; tv.Value != nil && tv.Value.Kind() == constant.String && constant.StringVal(tv.Value) == "verbatim" {
+				if f, ok := w.Info.Uses[identOf(kv.Value)].(*types.Func); ok && w.decls[f] != nil {
+					handler = w.decls[f]
+				}
+			}
+			return true
+		})
+	}
+	if handler == nil {
+		cannotDecide("no block handler is registered for the verbatim tag")
+	}
+	if fd != handler {
+		r.bad("R04.3", w.declName(handler), "the verbatim handler builds a VerbatimNode", w.pos(handler), "the handler registered for `verbatim` does not construct a VerbatimNode: the body becomes an ordinary node (text nodes are re-scanned for {{ }} inside macro bodies), so a verbatim body can be evaluated and can leak context data")
+		fd = handler
+	} else {
+		r.ok("R04.3", w.declName(handler), "the verbatim handler builds a VerbatimNode", w.pos(handler), "constructor returning *VerbatimNode", true)
 	}
 	fname := w.declName(fd)
 	// R04.3: no other parser function is called
